@@ -33,7 +33,12 @@ mutual
       | .dict kvs => match evalDict fuel es σ kvs with
           | .ok (es', ys) => .ok (es', .dict ys) | .error e => .error e
       | .ref scopes sel ev =>
-          if ev then callCfg fuel es sel (if scopes.isEmpty then σ else scopes) [] []
+          if ev then
+            -- constructing a class supplies the instance itself as first positional argument
+            let selfArg : List Val := match es.registry.get? sel with
+              | some e => if e.isClass then [.obj (5000 + e.objId)] else []
+              | none => []
+            callCfg fuel es sel (if scopes.isEmpty then σ else scopes) selfArg []
           else .ok (es, .fn sel scopes)
       | .macro name => callCfg fuel es State.macroSel (if name.isEmpty then [] else name.splitOn "/") [] []
       | .const name => match es.constants.get? name with
